@@ -37,8 +37,11 @@ class Trace:
     def __init__(self) -> None:
         self.events: List[Dict[str, Any]] = []
         self.now = 0  # virtual time in milliseconds, set by the environment
+        self.sealed = False  # set after the final quiescent point: harness clean-up is not observed
 
     def log(self, e: str, **fields: Any) -> None:
+        if self.sealed:
+            return
         ev = {"e": e}
         ev.update(fields)
         self.events.append(ev)
